@@ -201,3 +201,15 @@ func (e *Engine) XABranches() map[string]string {
 
 // TextOf renders a typed value as MySQL text.
 func TextOf(v interface{}) string { return textOf(v) }
+
+// Truncate removes all committed rows of a table (harness housekeeping).
+func (e *Engine) Truncate(name string) {
+	e.mu.Lock()
+	defer e.mu.Unlock()
+	if t := e.tables[strings.ToUpper(name)]; t != nil {
+		t.rows = map[string][]interface{}{}
+	}
+}
+
+// ColIndex returns the index of a column by (case-insensitive) name, -1 when absent.
+func (t *Table) ColIndex(name string) int { return t.colIndex(strings.Trim(name, "` ")) }
